@@ -64,7 +64,7 @@ class TRef:
 
 
 class Bound:
-    """shape in {lit, inf, neg, arith, const, attr, derived, self, funcall}"""
+    """shape in {lit, inf, neg, arith, const, attr, derived, self, funcall, negconst, negattr, negderived}"""
     def __init__(self, shape, text, value=None, name=None):
         self.shape, self._text, self.value, self.name = shape, text, value, name
 
@@ -278,11 +278,12 @@ class SchemaFile:
 class Gen:
     def __init__(self, rng, n_types=(3, 12), n_entities=(1, 6), n_other=(0, 3), mixed_case=0.3,
                  p_rename=0.3, p_agg=0.3, p_nonliteral_bound=0.35, cross_refs=0.5, mutual=0.3,
-                 case_collide=0.5, long_names=0.1):
+                 case_collide=0.5, long_names=0.1, p_negated_ref=0.0):
         self.rng = rng
         self.k = dict(n_types=n_types, n_entities=n_entities, n_other=n_other, mixed_case=mixed_case,
                       p_rename=p_rename, p_agg=p_agg, p_nonliteral_bound=p_nonliteral_bound,
-                      cross_refs=cross_refs, mutual=mutual, case_collide=case_collide, long_names=long_names)
+                      cross_refs=cross_refs, mutual=mutual, case_collide=case_collide, long_names=long_names,
+                      p_negated_ref=p_negated_ref)
         self.used = set()
         self.ctr = 0
 
@@ -360,6 +361,9 @@ class Gen:
             else:
                 a = r.choice([a for a in ints if a.derived is not None and a in ctx_entity.attrs])
                 b = Bound("derived", a.name, name=a.name)
+            # knob p_negated_ref (default 0: no extra random draw): `-kk`, `-n` — unary minus applied to a reference
+            if self.k["p_negated_ref"] > 0 and b.shape in ("const", "attr", "derived") and r.random() < self.k["p_negated_ref"]:
+                b, which = Bound("neg" + b.shape, "-" + b.text(), name=b.name), "lo"
             if which == "lo":
                 lo = b
             else:
@@ -605,6 +609,7 @@ def every_bound_shape_schema(name="all_bounds"):
     ty("tb_const", one, Bound("const", "kk", name="kk"))
     ty("tb_const_lo", Bound("const", "kk", name="kk"), Bound("inf", "?"))
     ty("tb_fun", one, Bound("funcall", "ff(2)", name="ff"))
+    ty("tb_negconst", Bound("negconst", "-kk", name="kk"), Bound("const", "kk", name="kk"), "ARRAY")
     e0 = s.add(EntityDecl("eb_zero"))
     e0.attrs.append(Attr("n", TSimple("INTEGER")))
     e1 = s.add(EntityDecl("eb_one"))
@@ -614,10 +619,48 @@ def every_bound_shape_schema(name="all_bounds"):
                  Attr("a_attr", TAgg("ARRAY", Bound("lit", "0", value=0), Bound("attr", "m", name="m"), TSimple("REAL"))),
                  Attr("a_der", TAgg("ARRAY", Bound("lit", "0", value=0), Bound("derived", "d", name="d"), TSimple("REAL"))),
                  Attr("a_self", TAgg("ARRAY", one, Bound("self", "SELF\\eb_zero.n", name="n"), TSimple("REAL"))),
-                 Attr("a_expr", TAgg("LIST", one, Bound("arith", "m + 1"), TSimple("REAL")))]
+                 Attr("a_expr", TAgg("LIST", one, Bound("arith", "m + 1"), TSimple("REAL"))),
+                 Attr("a_negattr", TAgg("ARRAY", Bound("negattr", "-m", name="m"), Bound("attr", "m", name="m"), TSimple("REAL")))]
     for a in e0.attrs:
         a.owner = e0
     for a in e1.attrs:
         a.owner = e1
     s.add(OtherDecl("FUNCTION", "ff", "FUNCTION ff(x : INTEGER) : INTEGER;\n  RETURN (x);\nEND_FUNCTION;"))
+    return SchemaFile([s])
+
+
+def renamed_in_select_schema(names, variant=0, schema_name="ren_in_sel"):
+    """deterministic single schema in which renamed enumerations / selects are reached from SELECTs — as a select item,
+    as the attribute type of an entity item (plain and as aggregate), through an inherited attribute — under the given
+    identifiers.  `names` = dict with keys enum, ren, ren2, sel, sel2, rsel, ent, sub (the hash order of the symbol table,
+    hence the order in which exp2cxx's checkTypes visits them, is a function of these strings).  variant 0..3 selects how
+    the renamed enumeration is reached."""
+    s = Schema(schema_name)
+    n = names
+    en = TypeDecl(n["enum"], "enum", items=["va_" + n["enum"][:6], "vb_" + n["enum"][:6]])
+    ren = TypeDecl(n["ren"], TRef(en))
+    ren2 = TypeDecl(n["ren2"], TRef(ren))
+    ent = EntityDecl(n["ent"])
+    sub = EntityDecl(n["sub"])
+    sub.supers = [ent]
+    ent.attrs.append(Attr("nm", TSimple("STRING")))
+    target = ren if variant % 2 == 0 else ren2
+    if variant in (0, 1):          # the renamed enumeration itself is a select item
+        sel = TypeDecl(n["sel"], "select", items=[TRef(target), TRef(ent)])
+    elif variant == 2:             # an entity item has an attribute of that type
+        ent.attrs.append(Attr("tint", TRef(target)))
+        sel = TypeDecl(n["sel"], "select", items=[TRef(ent)])
+    else:                          # … an aggregate of it, inherited by the item
+        ent.attrs.append(Attr("tints", TAgg("LIST", None, None, TRef(target))))
+        sel = TypeDecl(n["sel"], "select", items=[TRef(sub)])
+    sel2 = TypeDecl(n["sel2"], "select", items=[TRef(sel), TRef(en)])
+    rsel = TypeDecl(n["rsel"], TRef(sel))
+    sub.attrs.append(Attr("chosen", TRef(rsel)))
+    for a in ent.attrs:
+        a.owner = ent
+    for a in sub.attrs:
+        a.owner = sub
+    # textual order: originals first (any order is legal EXPRESS; the visiting order is the hash order anyway)
+    for d in (en, ren, ren2, ent, sel, sel2, rsel, sub):
+        s.add(d)
     return SchemaFile([s])
